@@ -20,7 +20,12 @@ import vlib
 
 META = {
     "category": "proof",
-    "text": "35 Rocq theorems over the reals (coq/Properties_C13.v), for ALL inputs and ALL parameter tuples: each of the 13 "
+    "text": "ON THE PRIMITIVE-FLOAT RUN (C13/MfFloat.v, Common/F64Refine.v, 2 theorems): for ALL finite binary64 arguments and parameters "
+            "of magnitude up to 2^1022, no ordering assumed, the float values of a_mf_tri / a_mf_lins / a_mf_linz (the instance compared "
+            "bit for bit with the C) are finite, equal the rounded-real values and lie in [0,1]; beyond 2^1023 the claim is FALSE "
+            "(C13_f64_span_overflow_refuted: NaN for finite well-ordered parameters whose span overflows) - seven open findings, one "
+            "key per family, replayed on the C as strict probes on every run.  "
+            "35 Rocq theorems over the reals (coq/Properties_C13.v), for ALL inputs and ALL parameter tuples: each of the 13 "
             "membership functions of src/mf.c lies in [0,1] (no ordering needed except dsig: equal slopes, centres ordered "
             "with the sign of the slope; refuted without), is exactly 1 on its core and 0 outside its support, is continuous "
             "at every x (stdlib continuity; non-zero widths), monotone on each flank (gauss, gauss2, gbell, sig, trap, tri, "
